@@ -176,7 +176,13 @@ def dispatch (memo : QuadMemo) (cmd : String) (a : Array J) : Option (R × QuadM
   | "gen.random" => pure' do let p ← (arg 0).nat?; let w ← (arg 1).vec?; return (Gen.randomFrom p w).map jkv
   | "basis.eval" => pure' do
       let k ← kvOf (arg 0); let w ← (arg 1).optVec?; let j ← (arg 2).nat?; let u ← (arg 3).rat?
-      return do let k ← k; return jv (← rbasisRow k w j u)
+      return do
+        let k ← k
+        let r ← rbasisRow k w j u
+        -- run-time validation of the side condition of theorem C02_basis_eq_cdb
+        let t ← speval k j
+        if !evalCheck k t j u then throw .other
+        return jv r
   | "basis.table" => pure' do
       let k ← kvOf (arg 0); let j ← (arg 1).nat?
       return do let k ← k; let t ← speval k j; return .arr (t.polys.map jm)
@@ -189,7 +195,13 @@ def dispatch (memo : QuadMemo) (cmd : String) (a : Array J) : Option (R × QuadM
   | "curve.new" => pure' do let c ← crv 0; return do return jcurve (← c)
   | "curve.eval" => pure' do
       let c ← crv 0; let us ← (arg 3).vec?
-      return do let c ← c; return jm (← c.evalMany us)
+      return do
+        let c ← c
+        let r ← c.evalMany us
+        -- run-time validation of the side condition of theorem C01_eval_eq_def
+        let t ← speval c.kv c.kv.deg
+        if !(us.all fun u => evalCheck c.kv t c.kv.deg u) then throw .other
+        return jm r
   | "curve.def" => pure' do
       let c ← crv 0; let us ← (arg 3).vec?
       return do
